@@ -62,4 +62,33 @@ MemAfter(mem, bpa, big, cmds, i) ==
 
 InitMem(cells) == [a \in {cells[i].a : i \in 1..Len(cells)} |-> cells[CHOOSE i \in 1..Len(cells) : cells[i].a = a].b]
 SessionOk(e) == Replay(InitMem(e.init), e.bpa, e.big, e.cmds, 1) = 0
+-----------------------------------------------------------------------------
+(* "agrees with what the simulator then fetches": a load-immediate          *)
+(* instruction of the CPU (from its architecture manual) at the unit        *)
+(* address pc; after one simulator step the register holds the immediate    *)
+(* that is in memory there.                                                 *)
+(*   msp430  mov.w #imm16, r5   35 40 lo hi                                 *)
+(*   6502    lda #imm8          a9 nn                                       *)
+(*   z80     ld a, n            3e nn                                       *)
+(*   avr8    ldi r16, K         1110 KKKK 0000 KKKK, low byte first         *)
+LoadBytes(cpu, v) ==
+  CASE cpu = "msp430" -> <<53, 64, v % 256, v \div 256>>
+    [] cpu = "6502"   -> <<169, v % 256>>
+    [] cpu = "z80"    -> <<62, v % 256>>
+    [] cpu = "avr8"   -> <<v % 16, 224 + ((v \div 16) % 16)>>
+IsLoadAt(cpu, mem, x) ==
+  CASE cpu = "msp430" -> Rd(mem, x) = 53 /\ Rd(mem, x + 1) = 64
+    [] cpu = "6502"   -> Rd(mem, x) = 169
+    [] cpu = "z80"    -> Rd(mem, x) = 62
+    [] cpu = "avr8"   -> Rd(mem, x) < 16 /\ Rd(mem, x + 1) \div 16 = 14
+ImmAt(cpu, mem, x) ==
+  CASE cpu = "msp430" -> Rd(mem, x + 2) + 256 * Rd(mem, x + 3)
+    [] cpu = "6502"   -> Rd(mem, x + 1)
+    [] cpu = "z80"    -> Rd(mem, x + 1)
+    [] cpu = "avr8"   -> ((Rd(mem, x + 1) % 16) * 16) + (Rd(mem, x) % 16)
+\* e = [cpu, bpa, big, init, cmds (writes), pc (unit address), reg (value the register shows after one step)]
+FetchOk(e) == LET mem == MemAfter(InitMem(e.init), e.bpa, e.big, e.cmds, 1) IN
+              IsLoadAt(e.cpu, mem, e.pc * e.bpa) => e.reg = ImmAt(e.cpu, mem, e.pc * e.bpa)
+FetchExpect(e) == ImmAt(e.cpu, MemAfter(InitMem(e.init), e.bpa, e.big, e.cmds, 1), e.pc * e.bpa)
+
 =============================================================================
